@@ -17,7 +17,7 @@ PLAIN_TOPICS = ('a', 'b', 'c', 'd', 'e', 'g', 'h', 'k', 'topic', '/cmd_vel', '/n
 KW_PREFIX_TOPICS = ('nothing', 'someone', 'afterburner', 'untilx', 'order', 'asset', 'notable', '/nothing',
                     'within2', 'causesx', 'globally_', 'to/from')
 ALIASES = ('A', 'B', 'C', 'M', 'Msg', 'prev', 'm1')
-KW_PREFIX_ALIASES = ('Estimate', 'order', 'asset', 'inside', 'notable', 'Total')
+KW_PREFIX_ALIASES = ('Estimate', 'orderly', 'assets', 'inside', 'notably', 'Total')
 BOUND_VARS = ('i', 'j', 'k', 'n', 'e1', 'elem')
 NUM_TEXTS = ('0', '1', '2', '3', '10', '0.5', '0.25', '1.5', '100', '7', '1e3', '2.5E-2', '.5', '1.',
              '1234567890123456789', '1e308', '1e-320', '0.0', '42')
@@ -280,7 +280,11 @@ class Typed:
                 return ref
         if k < 0.8:
             return ('bin', '+', A.num(str(r.randrange(0, max(1, hi - 1)))), A.num(pick(r, ('0', '1'))))
-        return self.num(min(d - 1, 1))
+        e = self.num(min(d - 1, 1))
+        if e[0] == 'lit':
+            # a literal index must stay within a fixed length (it is checked against the schema)
+            return A.num(str(r.randrange(0, hi)))
+        return e
 
     def ref(self, t, d, allow_bound=True):
         """A reference of model type t, or None."""
